@@ -147,7 +147,7 @@ func (r *EventTicker[I, T]) addTickerToQueue(id T) (added bool) {
 	}
 
 	// schedule the next request and trigger the event
-	scheduledTask := r.timedExecutor.ExecuteAfter(r.createReScheduler(id, 0), r.optsRetryInterval+time.Duration(crypto.Randomness.Float64()*float64(r.optsRetryJitter)))
+	scheduledTask := r.scheduleTick(id, 0)
 	if scheduledTask == nil {
 		// the executor was shut down: there is no ticker to count or to announce
 		return false
@@ -184,14 +184,14 @@ func (r *EventTicker[I, T]) stopTicker(id T) (stopped bool) {
 	return true
 }
 
-func (r *EventTicker[I, T]) reSchedule(id T, count int) {
+func (r *EventTicker[I, T]) reSchedule(id T, count int, ownTask **timed.ScheduledTask) {
 	r.Events.Tick.Trigger(id)
 
 	// as we schedule a request at most once per id we do not need to make the trigger and the re-schedule atomic
 	r.evictionMutex.RLock()
 	defer r.evictionMutex.RUnlock()
 
-	// reschedule, if the request has not been stopped in the meantime
+	// reschedule, if the request has not been stopped (and possibly started again) in the meantime
 
 	tickerStorage := r.scheduledTickers.Get(id.Index())
 	if tickerStorage == nil {
@@ -200,7 +200,7 @@ func (r *EventTicker[I, T]) reSchedule(id T, count int) {
 
 	r.tickerMutex.Lock()
 
-	if _, requestExists := tickerStorage.Get(id); requestExists {
+	if currentTask, requestExists := tickerStorage.Get(id); requestExists && currentTask == *ownTask {
 		// increase the request counter
 		count++
 
@@ -217,7 +217,7 @@ func (r *EventTicker[I, T]) reSchedule(id T, count int) {
 			return
 		}
 
-		if scheduledTask := r.timedExecutor.ExecuteAfter(r.createReScheduler(id, count), r.optsRetryInterval+time.Duration(crypto.Randomness.Float64()*float64(r.optsRetryJitter))); scheduledTask != nil {
+		if scheduledTask := r.scheduleTick(id, count); scheduledTask != nil {
 			tickerStorage.Set(id, scheduledTask)
 		}
 	}
@@ -225,10 +225,15 @@ func (r *EventTicker[I, T]) reSchedule(id T, count int) {
 	r.tickerMutex.Unlock()
 }
 
-func (r *EventTicker[I, T]) createReScheduler(blkID T, count int) func() {
-	return func() {
-		r.reSchedule(blkID, count)
-	}
+// scheduleTick schedules the next tick of the ticker with the given id. The caller holds the tickerMutex: the callback
+// reads its own task (to recognize whether it still belongs to the registered ticker) while holding that mutex.
+func (r *EventTicker[I, T]) scheduleTick(id T, count int) *timed.ScheduledTask {
+	var scheduledTask *timed.ScheduledTask
+	scheduledTask = r.timedExecutor.ExecuteAfter(func() {
+		r.reSchedule(id, count, &scheduledTask)
+	}, r.optsRetryInterval+time.Duration(crypto.Randomness.Float64()*float64(r.optsRetryJitter)))
+
+	return scheduledTask
 }
 
 func (r *EventTicker[I, T]) updateScheduledTickerCount(diff int) {
